@@ -21,8 +21,8 @@ ASSUMPTIONS = [
     "results in input order (real OS processes, pickling of real objects, start methods are outside)",
     "reference gap = the same gap function on a FRESH game object knowing exactly start ∪ set, computed by the same registered computer",
 ]
-OUTSIDE = ["real OS processes / pickling", "n>=5", "best-states at n=4 beyond k=1 (path budget)", "games outside the assumed class for the best-states minimum "
-           "(the -1 'no entry yet' marker of best-states can collide with a mean gap of exactly -1, which needs upper<lower, i.e. a game outside the class)"]
+OUTSIDE = ["real OS processes / pickling", "n>=5", "best-states at n=4 beyond the listed starts (path budget)",
+           "best-states for games outside the class: only integer-valued games (multiples of 12, |v|<=600) at the listed n=4 starts"]
 STUBS = ["Pool stub", "np proxy", "SymArray", "generator stub", "np.linalg.norm model"]
 
 
@@ -38,7 +38,7 @@ def tasks(tier, seed):
     rnd = random.Random(f"c11/{seed}")
 
     def add(kind, n, K, k, P, gap, m=1, comp="superadditive_cached", **kw):
-        d = {"key": f"{kind}/n{n}/{comp}/{gap}/K={','.join(map(str, K))}/k={k}/P={P}/m={m}", "kind": kind, "n": n, "K": K, "k": k, "P": P,
+        d = {"key": f"{kind}/n{n}/{comp}/{gap}/K={','.join(map(str, K))}/k={k}/P={P}/m={m}" + ("/anyclass" if kw.get("anyclass") else ""), "kind": kind, "n": n, "K": K, "k": k, "P": P,
              "gap": gap, "m": m, "computer": comp}
         d.update(kw)
         out.append(d)
@@ -65,7 +65,12 @@ def tasks(tier, seed):
     # n=4 with most coalitions initially known: few candidates per size, so every ordering of the running minimum is explored
     for init in ([3, 5, 6, 9, 10, 12], [3, 12, 7, 11, 13, 14], [5, 10, 7, 11, 13, 14], [6, 9, 3, 14, 13, 7]):
         add("best", 4, init, 2, rnd.choice([1, 2, 3]), rnd.choice(["exploitability", "l1_norm"]), rnd.choice([1, 2]))
+    # best-states "for any game": no class assumption (gaps may be negative, e.g. hit the in-band 'no entry yet' marker);
+    # values restricted to integer multiples of 12 in [-600, 600] so that a counterexample is float-exact
+    add("best", 4, [3, 5, 6, 9], 1, 1, "exploitability", 1, anyclass=True)
+    add("best", 4, [3, 5, 6, 9, 10, 12], 2, 2, "exploitability", 1, anyclass=True)
     if tier == "thorough":
+        add("best", 4, [3, 12], 1, 2, "exploitability", 1, anyclass=True)
         add("best", 4, [], 1, 2, "exploitability", 1)
         add("best", 4, [3, 12], 1, 3, "l1_norm", 2)
     return out
@@ -79,7 +84,17 @@ def setup(params, inp, lg):
     n = params["n"]
     ass = []
     for j in range(1, params["m"] + 3):
-        ass += F.sa_constraints(_draw(inp, j, n), n, lg)
+        v = _draw(inp, j, n)
+        if params.get("anyclass"):
+            for S in range(1, 2 ** n):
+                if lg.mode == "sym":
+                    import z3
+                    k = z3.Int(f"k{j}_{S}")
+                    ass.append(z3.And(v[S].t == 12 * z3.ToReal(k), k >= -50, k <= 50))
+                else:
+                    ass.append(float(v[S]) % 12 == 0 and abs(float(v[S])) <= 600)
+        else:
+            ass += F.sa_constraints(v, n, lg)
     return ass
 
 
@@ -215,7 +230,7 @@ def claims(params, inp, out, lg):
         cl.append((f"reported-set-has-that-size:size={s}", len(rep) == s and len(match) == 1))
         if match:
             cl.append((f"reported-set-attains:size={s}", lg.And([lg.eq(a, b) for a, b in zip(col, match[0])])))
-        if prev is not None:
+        if prev is not None and not params.get("anyclass"):
             cl.append((f"curve-non-increasing:size={s}", lg.le(mine, prev)))
         prev = mine
     return cl
@@ -231,6 +246,9 @@ def canaries(params, inp, out, lg):
 def test_vectors(params):
     n = params["n"]
     vecs = []
+    if params.get("anyclass"):
+        rnd = random.Random(params["key"])
+        return [{f"g{j}v{S}": Fraction(12 * rnd.randint(-50, 50)) for j in range(1, params["m"] + 3) for S in range(1, 2 ** n)} for _ in range(2)]
     for t in range(2):
         d = {}
         games = F.sa_test_games(n, 31 + t, 3)
